@@ -268,10 +268,10 @@ func runHTTP(r *vcommon.Run) {
 
 		if excluded {
 			if !admitted {
-				r.Violation("http-excluded-rejected", desc+": excluded request rejected: "+aerr.Error(), replay)
+				violation(r, "http-excluded-rejected", desc+": excluded request rejected: "+aerr.Error(), replay)
 			}
 			if len(got) != 0 {
-				r.Violation("http-excluded-reached-server", desc+": excluded request was sent to the auth server", replay)
+				violation(r, "http-excluded-reached-server", desc+": excluded request was sent to the auth server", replay)
 			}
 			r.Distinct(fmt.Sprintf("http excluded excl=%d %s", c.excl, c.ap.action))
 			count(fmt.Sprintf("http/excluded/admitted=%v", admitted))
@@ -294,7 +294,7 @@ func runHTTP(r *vcommon.Run) {
 		}
 		switch {
 		case want == yes && !admitted:
-			r.Violation(fmt.Sprintf("http-2xx-rejected:status=%d", a.status), desc+": rejected: "+aerr.Error(), replay)
+			violation(r, fmt.Sprintf("http-2xx-rejected:status=%d", a.status), desc+": rejected: "+aerr.Error(), replay)
 		case want == no && admitted && a.kind == ansRedirect:
 			m := "?"
 			for _, g := range got {
@@ -302,11 +302,11 @@ func runHTTP(r *vcommon.Run) {
 					m = fmt.Sprintf("%s with %d body bytes", g.method, len(g.body))
 				}
 			}
-			r.Violation(fmt.Sprintf("http-redirect-followed-admitted:%d", a.status),
+			violation(r, fmt.Sprintf("http-redirect-followed-admitted:%d", a.status),
 				desc+": the auth server answered "+strconv.Itoa(a.status)+" to the POST; the client followed the redirect ("+m+
 					") and admitted the request on the target's "+strconv.Itoa(a.targetStatus), replay)
 		case want == no && admitted:
-			r.Violation(fmt.Sprintf("http-non2xx-admitted:%s", a), desc+": admitted", replay)
+			violation(r, fmt.Sprintf("http-non2xx-admitted:%s", a), desc+": admitted", replay)
 		}
 
 		// content of the POST
@@ -318,7 +318,7 @@ func runHTTP(r *vcommon.Run) {
 				}
 			}
 			if len(posts) != 1 {
-				r.Violation("http-post-count", fmt.Sprintf("%s: auth server received %d requests instead of 1", desc, len(posts)), replay)
+				violation(r, "http-post-count", fmt.Sprintf("%s: auth server received %d requests instead of 1", desc, len(posts)), replay)
 			}
 			check := posts
 			if want == dc && admitted {
@@ -352,12 +352,12 @@ func runHTTP(r *vcommon.Run) {
 
 func checkPost(r *vcommon.Run, c httpCase, g received, desc string, replay map[string]any) {
 	if g.method != http.MethodPost {
-		r.Violation("http-post-method", fmt.Sprintf("%s: auth server received %s", desc, g.method), replay)
+		violation(r, "http-post-method", fmt.Sprintf("%s: auth server received %s", desc, g.method), replay)
 		return
 	}
 	var m map[string]any
 	if err := json.Unmarshal(g.body, &m); err != nil {
-		r.Violation("http-post-notjson", fmt.Sprintf("%s: POST body is not a JSON object: %v", desc, err), replay)
+		violation(r, "http-post-notjson", fmt.Sprintf("%s: POST body is not a JSON object: %v", desc, err), replay)
 		return
 	}
 	str := func(k string) string {
@@ -377,13 +377,13 @@ func checkPost(r *vcommon.Run, c httpCase, g received, desc string, replay map[s
 	}
 	for _, k := range []string{"ip", "user", "password", "action", "path", "protocol", "query"} {
 		if str(k) != exp[k] {
-			r.Violation("http-post-field:"+k, fmt.Sprintf("%s: POST field %s = %q, the request has %q", desc, k, str(k), exp[k]), replay)
+			violation(r, "http-post-field:"+k, fmt.Sprintf("%s: POST field %s = %q, the request has %q", desc, k, str(k), exp[k]), replay)
 		}
 	}
 	// the http method has no "allowed in HTTP query" switch: query tokens only with RTSP / RTMP
 	toks := effectiveTokens(c.pl, c.ap, false)
 	if !contains(toks, str("token")) {
-		r.Violation("http-post-field:token:"+c.pl.name+":"+protoClass(c.ap), fmt.Sprintf(
+		violation(r, "http-post-field:token:"+c.pl.name+":"+protoClass(c.ap), fmt.Sprintf(
 			"%s: POST field token = %q, by the precedence rule it is one of %q", desc, str("token"), toks), replay)
 	}
 }
